@@ -26,6 +26,14 @@ Passes (all applied by default; VERIF_NORM=0 switches the normaliser off):
   unroll   for v in (p.a, q, r.b): BODY  ->  BODY[v:=p.a]; BODY[v:=q]; BODY[v:=r.b]
            (a literal tuple/list of at most 8 names or attribute paths, v not assigned in BODY,
            no break/continue in BODY: a spelled-out list of actions)
+  compare  lit OP x  ->  x OP' lit   (a literal operand goes to the right; both operands free of calls)
+           not (a == b) -> a != b, likewise !=, is, is not, in, not in (exact; order comparisons are left
+           alone because of NaN);  if not C: A else: B  ->  if C: B else: A
+  unenum   for _, v in enumerate(X): ..  ->  for v in X: ..   when the index is never read
+  else     if C: ...; return/raise/continue/break  else: REST   ->   if C: ...;  REST
+  while    i = a; while i < N: BODY; i += 1   ->   for i in range(a, N): BODY
+           (i is written nowhere else in BODY, BODY has no `continue`, N is call-free apart from len(),
+           nothing N reads is stored in BODY, i is not read after the loop)
   verdict  if X.compare(a, b) OP lit: ..  ->  __fN = X.compare(a, b); if __fN OP lit: ..
            (a comparator verdict tested in place gets the name the rest of the code base gives it)
 """
@@ -301,6 +309,145 @@ def _unroll_literal(st):
     return out
 
 
+_SWAP = {ast.Lt: ast.Gt, ast.Gt: ast.Lt, ast.LtE: ast.GtE, ast.GtE: ast.LtE, ast.Eq: ast.Eq, ast.NotEq: ast.NotEq}
+_INV = {ast.Eq: ast.NotEq, ast.NotEq: ast.Eq, ast.Is: ast.IsNot, ast.IsNot: ast.Is, ast.In: ast.NotIn, ast.NotIn: ast.In}
+
+
+def _is_lit(e):
+    if isinstance(e, ast.Constant):
+        return True
+    return isinstance(e, ast.UnaryOp) and isinstance(e.op, (ast.USub, ast.UAdd)) and isinstance(e.operand, ast.Constant)
+
+
+def _no_call(e):
+    return not any(isinstance(n, (ast.Call, ast.Await, ast.NamedExpr, ast.Yield, ast.YieldFrom)) for n in ast.walk(e))
+
+
+class _Cmp(ast.NodeTransformer):
+    """canonical orientation / negation of comparisons inside one expression"""
+
+    def visit_Compare(self, n):
+        self.generic_visit(n)
+        if len(n.ops) == 1 and type(n.ops[0]) in _SWAP and _is_lit(n.left) and not _is_lit(n.comparators[0]) and _no_call(n.comparators[0]):
+            STATS["compare"] = STATS.get("compare", 0) + 1
+            return ast.copy_location(ast.Compare(left=n.comparators[0], ops=[_SWAP[type(n.ops[0])]()], comparators=[n.left]), n)
+        return n
+
+    def visit_UnaryOp(self, n):
+        self.generic_visit(n)
+        if isinstance(n.op, ast.Not) and isinstance(n.operand, ast.Compare) and len(n.operand.ops) == 1 and type(n.operand.ops[0]) in _INV:
+            c = n.operand
+            STATS["compare"] = STATS.get("compare", 0) + 1
+            return ast.copy_location(ast.Compare(left=c.left, ops=[_INV[type(c.ops[0])]()], comparators=c.comparators), n)
+        if isinstance(n.op, ast.Not) and isinstance(n.operand, ast.UnaryOp) and isinstance(n.operand.op, ast.Not) and False:
+            return n
+        return n
+
+    def visit_Lambda(self, n):
+        return n
+
+
+def _canon_exprs(st):
+    """apply _Cmp to the expressions a statement owns (not to nested statements)"""
+    for f, v in ast.iter_fields(st):
+        if isinstance(v, ast.expr):
+            setattr(st, f, _Cmp().visit(v))
+        elif isinstance(v, list) and v and isinstance(v[0], ast.expr):
+            setattr(st, f, [_Cmp().visit(x) for x in v])
+    if isinstance(st, (ast.With, ast.AsyncWith)):
+        for it in st.items:
+            it.context_expr = _Cmp().visit(it.context_expr)
+
+
+def _swap_not(st):
+    if isinstance(st, ast.If) and st.orelse and isinstance(st.test, ast.UnaryOp) and isinstance(st.test.op, ast.Not):
+        STATS["compare"] = STATS.get("compare", 0) + 1
+        return [_loc(ast.If(test=st.test.operand, body=st.orelse, orelse=st.body), st)]
+    return None
+
+
+def _unenum(st):
+    if not (isinstance(st, ast.For) and isinstance(st.iter, ast.Call) and isinstance(st.iter.func, ast.Name) and st.iter.func.id == "enumerate"
+            and len(st.iter.args) == 1 and not st.iter.keywords and isinstance(st.target, ast.Tuple) and len(st.target.elts) == 2
+            and isinstance(st.target.elts[0], ast.Name)):
+        return None
+    idx = st.target.elts[0].id
+    used = sum(1 for b in st.body + st.orelse for n in ast.walk(b) if isinstance(n, ast.Name) and n.id == idx)
+    if used:
+        return None
+    return idx
+
+
+def _terminates(stmts):
+    return bool(stmts) and isinstance(stmts[-1], (ast.Return, ast.Raise, ast.Continue, ast.Break))
+
+
+def _while_to_for(stmts, k, fn_tail_reads):
+    """stmts[k] is a While: the replacement For (and the index of the initialisation to drop) or None"""
+    w = stmts[k]
+    if w.orelse or not w.body:
+        return None
+    t = w.test
+    if not (isinstance(t, ast.Compare) and len(t.ops) == 1 and isinstance(t.ops[0], ast.Lt) and isinstance(t.left, ast.Name)):
+        return None
+    i = t.left.id
+    N = t.comparators[0]
+    for n in ast.walk(N):
+        if isinstance(n, ast.Call) and not (isinstance(n.func, ast.Name) and n.func.id == "len" and len(n.args) == 1):
+            return None
+    last = w.body[-1]
+    if not (isinstance(last, ast.AugAssign) and isinstance(last.target, ast.Name) and last.target.id == i and isinstance(last.op, ast.Add)
+            and isinstance(last.value, ast.Constant) and last.value.value == 1):
+        return None
+    inner = ast.Module(body=w.body[:-1], type_ignores=[])
+    for n in ast.walk(inner):
+        if isinstance(n, ast.Continue):
+            return None
+        if isinstance(n, ast.Name) and n.id == i and isinstance(n.ctx, (ast.Store, ast.Del)):
+            return None
+        if isinstance(n, (ast.FunctionDef, ast.Lambda)):
+            return None
+    # N must denote the same number in every iteration
+    n_reads = access_paths_in(N)
+    for s_ in w.body[:-1]:
+        for n in ast.walk(s_):
+            if isinstance(n, (ast.Name, ast.Attribute, ast.Subscript)) and isinstance(getattr(n, "ctx", None), (ast.Store, ast.Del)):
+                p_ = access_path(n) or root_name(n)
+                if p_ and any(paths_overlap(p_, r) for r in n_reads):
+                    return None
+            if isinstance(n, ast.Call) and isinstance(n.func, ast.Attribute):
+                p_ = access_path(n.func.value)
+                if p_ and any(paths_overlap(p_, r) for r in n_reads) and n.func.attr in (
+                        "append", "extend", "insert", "remove", "pop", "clear", "sort", "reverse", "update", "add", "discard"):
+                    return None
+    # initialisation: the nearest preceding statement must be `i = <start>` (only simple statements not touching i in between)
+    init = None
+    for j in range(k - 1, -1, -1):
+        s_ = stmts[j]
+        if isinstance(s_, ast.Assign) and len(s_.targets) == 1 and isinstance(s_.targets[0], ast.Name) and s_.targets[0].id == i:
+            init = j
+            break
+        if not isinstance(s_, (ast.Assign, ast.AugAssign, ast.Expr)) or any(isinstance(n, ast.Name) and n.id == i for n in ast.walk(s_)):
+            return None
+    if init is None:
+        return None
+    start = stmts[init].value
+    if any(isinstance(n, ast.Call) for n in ast.walk(start)):
+        return None
+    # i must be dead after the loop
+    for s_ in stmts[k + 1:]:
+        for n in ast.walk(s_):
+            if isinstance(n, ast.Name) and n.id == i:
+                return None
+    if fn_tail_reads(i):
+        return None
+    args = [copy.deepcopy(N)] if (isinstance(start, ast.Constant) and start.value == 0) else [copy.deepcopy(start), copy.deepcopy(N)]
+    loop = ast.For(target=ast.Name(id=i, ctx=ast.Store()), iter=ast.Call(func=ast.Name(id="range", ctx=ast.Load()), args=args, keywords=[]),
+                   body=w.body[:-1] or [ast.Pass()], orelse=[])
+    STATS["while"] = STATS.get("while", 0) + 1
+    return _loc(loop, w), init
+
+
 def _hoist_verdict(st, fx):
     if not (isinstance(st, ast.If) and isinstance(st.test, ast.Compare) and len(st.test.ops) == 1
             and isinstance(st.test.left, ast.Call) and isinstance(st.test.left.func, ast.Attribute)
@@ -315,7 +462,26 @@ def _hoist_verdict(st, fx):
 
 
 # --------------------------------------------------------------------- driver
-def _block(stmts, fx, occ):
+def _block(stmts, fx, occ, top=False):
+    stmts = list(stmts)
+    k = 0
+    while k < len(stmts):
+        if isinstance(stmts[k], ast.While):
+            # only in a block whose continuation is visible: the function body itself, where `i` dead after the
+            # loop can be checked; nested blocks are handled when the enclosing function never reads i elsewhere
+            def tail_reads(name, _stmts=stmts, _k=k):
+                if top:
+                    return False
+                # nested block: i must not occur anywhere in the function outside this block
+                inside = sum(1 for s_ in _stmts for n in ast.walk(s_) if isinstance(n, ast.Name) and n.id == name)
+                return occ.get(name, 0) != inside
+            r = _while_to_for(stmts, k, tail_reads)
+            if r is not None:
+                loop, init = r
+                stmts[k] = loop
+                del stmts[init]
+                k -= 1
+        k += 1
     out = []
     for st in stmts:
         out.extend(_stmt(st, fx, occ))
@@ -329,6 +495,23 @@ def _stmt(st, fx, occ):
     if isinstance(st, ast.ClassDef):
         st.body = _class_body(st.body)
         return [st]
+    _canon_exprs(st)
+    r = _swap_not(st)
+    if r is not None:
+        return _block(r, fx, occ)
+    idx = _unenum(st)
+    if idx is not None:
+        # the index is dead: iterate the sequence itself (the name may be read after the loop: keep it out then)
+        if occ.get(idx, 0) <= 1:
+            STATS["unenum"] = STATS.get("unenum", 0) + 1
+            st.target = st.target.elts[1]
+            st.iter = st.iter.args[0]
+    if isinstance(st, ast.If) and st.orelse and _terminates(st.body):
+        # else after a branch that never falls through
+        STATS["else"] = STATS.get("else", 0) + 1
+        rest = st.orelse
+        st.orelse = []
+        return _block([st] + rest, fx, occ)
     for rewrite in (_split_tuple, _split_ifexp, _lower_setdefault):
         r = rewrite(st)
         if r is not None:
@@ -367,7 +550,7 @@ def normalize_function(fn):
             occ[n.id] = occ.get(n.id, 0) + 1
         elif isinstance(n, ast.arg):
             occ[n.arg] = occ.get(n.arg, 0) + 1
-    fn.body = _block(fn.body, fx, occ)
+    fn.body = _block(fn.body, fx, occ, top=True)
     STATS["functions"] += 1
     return fn
 
